@@ -290,7 +290,7 @@ def make_reading_guard(ctx: core.Ctx, pmod: ast.Module):
     if kw is None or datap is None:
         ctx.error(f"{where}: signature is not (key, *, data=None, **kwargs)")
         return
-    fn = normast.Normaliser(normast.class_resolver(pmod, cls, module_funcs=False)).function(fn)
+    fn = normast.Normaliser(normast.class_resolver(pmod, cls, module_funcs="small")).function(fn)
     n_data = 0
     for path in _paths(fn.body):
         conds = [(rtmodel.py_expr(e[1]), e[2]) for e in path if e[0] == "cond"]
